@@ -178,6 +178,7 @@ func pruningFirstLevel(db dbm.DB, curHeight int64, treeCfg *TreeConfig) {
 }
 
 func pruningFirstLevelNode(db dbm.DB, curHeight int64, treeCfg *TreeConfig) {
+	keep := retainedRootHashes(db, curHeight, treeCfg)
 	prefix := []byte(leafKeyCountPrefix)
 	it := db.Iterator(prefix, nil, true)
 	defer it.Close()
@@ -217,7 +218,7 @@ func pruningFirstLevelNode(db dbm.DB, curHeight int64, treeCfg *TreeConfig) {
 			kvs = append(kvs, &types.KeyValue{Key: hashK, Value: value})
 		}
 		if len(mp) >= onceCount-1 || count > onceScanCount {
-			deleteNode(db, mp, curHeight, batch, treeCfg)
+			deleteNode(db, mp, curHeight, batch, treeCfg, keep)
 			mp = nil
 			count = 0
 		}
@@ -227,7 +228,7 @@ func pruningFirstLevelNode(db dbm.DB, curHeight int64, treeCfg *TreeConfig) {
 		}
 	}
 	if len(mp) > 0 {
-		deleteNode(db, mp, curHeight, batch, treeCfg)
+		deleteNode(db, mp, curHeight, batch, treeCfg, keep)
 		mp = nil
 		_ = mp
 	}
@@ -249,7 +250,40 @@ func addLeafCountKeyToSecondLevel(db dbm.DB, kvs []*types.KeyValue, batch dbm.Ba
 	dbm.MustWrite(batch)
 }
 
-func deleteNode(db dbm.DB, mp map[string][]hashData, curHeight int64, batch dbm.Batch, treeCfg *TreeConfig) {
+// retainedRootHashes returns the root hashes of the states a pruning run at curHeight has to keep
+// readable: every root recorded at a height >= curHeight-PruneHeight and the newest root recorded
+// below that height (the state of the lowest kept height when that block did not change the state).
+// Root records are stored under the bare tree hash, without the height prefix every other node key
+// carries, so a state that occurs again at a later height shares its root record with the old
+// version: deleting the old version's parent hashes must not delete such a record.
+func retainedRootHashes(db dbm.DB, curHeight int64, treeCfg *TreeConfig) map[string]struct{} {
+	keep := make(map[string]struct{})
+	lowest := curHeight - int64(treeCfg.PruneHeight)
+	below := int64(-1)
+	it := db.Iterator([]byte(rootHashHeightPrefix), nil, true)
+	defer it.Close()
+	for it.Rewind(); it.Valid(); it.Next() {
+		k := it.Key()
+		hash, err := getRootHash(k)
+		if err != nil {
+			continue
+		}
+		height, err := strconv.ParseInt(string(k[len(rootHashHeightPrefix):len(rootHashHeightPrefix)+blockHeightStrLen]), 10, 64)
+		if err != nil {
+			continue
+		}
+		if height < lowest {
+			if below >= 0 && height != below {
+				break
+			}
+			below = height
+		}
+		keep[string(hash)] = struct{}{}
+	}
+	return keep
+}
+
+func deleteNode(db dbm.DB, mp map[string][]hashData, curHeight int64, batch dbm.Batch, treeCfg *TreeConfig, keep map[string]struct{}) {
 	if len(mp) == 0 {
 		return
 	}
@@ -265,12 +299,19 @@ func deleteNode(db dbm.DB, mp map[string][]hashData, curHeight int64, batch dbm.
 						err := types.Decode(value, &pData)
 						if err == nil {
 							for _, hash := range pData.Hashs {
+								if _, ok := keep[string(hash)]; ok {
+									continue // root record shared with a retained state
+								}
 								batch.Delete(hash)
 							}
 						}
 					}
 					batch.Delete(leafCountKey) // 叶子计数节点
-					batch.Delete(val.hash)     // 叶子节点hash值
+					// an un-prefixed leaf (the root of a one-leaf tree) written again with the same
+					// value is stored under the same key as the newest, kept version
+					if _, ok := keep[string(val.hash)]; !ok && !bytes.Equal(val.hash, vals[0].hash) {
+						batch.Delete(val.hash) // 叶子节点hash值
+					}
 					if batch.ValueSize() > batchDataSize {
 						dbm.MustWrite(batch)
 						batch.Reset()
@@ -303,6 +344,7 @@ func pruningSecondLevel(db dbm.DB, curHeight int64, treeCfg *TreeConfig) {
 }
 
 func pruningSecondLevelNode(db dbm.DB, curHeight int64, treeCfg *TreeConfig) {
+	keep := retainedRootHashes(db, curHeight, treeCfg)
 	prefix := []byte(oldLeafKeyCountPrefix)
 	it := db.Iterator(prefix, nil, true)
 	defer it.Close()
@@ -330,20 +372,20 @@ func pruningSecondLevelNode(db dbm.DB, curHeight int64, treeCfg *TreeConfig) {
 			mp[string(key)] = append(mp[string(key)], data)
 			count++
 			if len(mp) >= onceCount-1 || count > onceScanCount {
-				deleteOldNode(db, mp, curHeight, batch, treeCfg)
+				deleteOldNode(db, mp, curHeight, batch, treeCfg, keep)
 				mp = nil
 				count = 0
 			}
 		}
 	}
 	if len(mp) > 0 {
-		deleteOldNode(db, mp, curHeight, batch, treeCfg)
+		deleteOldNode(db, mp, curHeight, batch, treeCfg, keep)
 		mp = nil
 		_ = mp
 	}
 }
 
-func deleteOldNode(db dbm.DB, mp map[string][]hashData, curHeight int64, batch dbm.Batch, treeCfg *TreeConfig) {
+func deleteOldNode(db dbm.DB, mp map[string][]hashData, curHeight int64, batch dbm.Batch, treeCfg *TreeConfig, keep map[string]struct{}) {
 	if len(mp) == 0 {
 		return
 	}
@@ -360,12 +402,17 @@ func deleteOldNode(db dbm.DB, mp map[string][]hashData, curHeight int64, batch d
 							err := types.Decode(value, &pData)
 							if err == nil {
 								for _, hash := range pData.Hashs {
+									if _, ok := keep[string(hash)]; ok {
+										continue // root record shared with a retained state
+									}
 									batch.Delete(hash)
 								}
 							}
 						}
 						batch.Delete(leafCountKey)
-						batch.Delete(val.hash) // 叶子节点hash值
+						if _, ok := keep[string(val.hash)]; !ok && !bytes.Equal(val.hash, vals[0].hash) {
+							batch.Delete(val.hash) // 叶子节点hash值
+						}
 					}
 				}
 			} else {
